@@ -17,7 +17,7 @@ from __future__ import annotations
 import ast
 
 from ..absint import AVal, Zone, ZoneDomain, ZERO, proves_le
-from ..core import (AnalysisError, Report, call_name, dotted, enclosing_function,
+from ..core import (AnalysisError, Report, call_name, dotted, enclosing_function, subst_locals,
                     find_class, find_func, need, norm, short, ancestors, parent)
 from ..flow import Disjunctive, Flow, MustFacts, each, each_exit
 
@@ -47,9 +47,14 @@ EMPTY = ("r''", "b''", "''", '""', 'b""', "bytes()")
 REMAINING = {'self.size': 1, 'self.pos': -1}
 
 
+def methods(rep: Report, cls: ast.ClassDef) -> list[ast.FunctionDef]:
+    """the methods of the class in normal form; helpers inlined into their callers are not listed"""
+    return [f for c, f in rep.repo.expanded_functions(BR) if c is cls]
+
+
 def r20_1(rep: Report, cls: ast.ClassDef) -> None:
     rid = 'R20.1'
-    for fn in [n for n in cls.body if isinstance(n, ast.FunctionDef)]:
+    for fn in methods(rep, cls):
         construct = f'{BR}::BufferedReader.{fn.name}'
         for n in ast.walk(fn):
             if not isinstance(n, ast.Call):
@@ -69,7 +74,7 @@ def r20_1(rep: Report, cls: ast.ClassDef) -> None:
                 if whence is not None and not whence.endswith('SEEK_SET') and whence != '0':
                     rep.fail(rid, construct, key, f'unsupported whence {whence}', n)
                     continue
-                l = lin(n.args[0]) if n.args else None
+                l = lin(subst_locals(fn, n.args[0])) if n.args else None
                 if l is not None and l.get('self.offset') == 1:
                     rep.ok(rid, construct, key)
                 else:
@@ -81,11 +86,11 @@ def r20_1(rep: Report, cls: ast.ClassDef) -> None:
                 key = f'tell in `{short(p, 60)}`'
                 ok = False
                 if isinstance(p, ast.BinOp) and isinstance(p.op, ast.Sub) and p.left is n:
-                    l = lin(p.right)
+                    l = lin(subst_locals(fn, p.right))
                     ok = l is not None and l.get('self.offset') == 1
                 elif isinstance(p, ast.Compare):
                     other = p.comparators[0] if p.left is n else p.left
-                    l = lin(other)
+                    l = lin(subst_locals(fn, other))
                     ok = l is not None and l.get('self.offset') == 1
                 if ok:
                     rep.ok(rid, construct, key)
@@ -409,16 +414,33 @@ def r20_4(rep: Report, cls: ast.ClassDef) -> None:
                 rep.ok(rid, construct, key)
             else:
                 rep.fail(rid, construct, key, 'bucket fill does not read exactly buffersize', n)
-    # early return when the bucket is cached
-    first = [s for s in fn.body if not isinstance(s, ast.Expr)][0]
-    if isinstance(first, ast.If) and norm(first.test) == f'{fn.args.args[1].arg} in self.buffers' \
-            and isinstance(first.body[0], ast.Return):
-        rep.ok(rid, construct, 'cached bucket is reused')
+    # a bucket that is present is not read again: every path to the fill implies `bucket not in buffers`
+    from ..pathcond import PathCond, entails as pc_entails, parse as pc_parse, show as pc_show
+    bname = fn.args.args[1].arg
+    goal = pc_parse(ast.parse(f'not ({bname} in self.buffers)', mode='eval').body)
+    verdicts = []
+
+    def on_fill(st, states):
+        if isinstance(st, (ast.If, ast.While, ast.For, ast.With, ast.Try)):
+            return
+        fills = any(isinstance(c, ast.Call) and call_name(c) == 'self.reader.read' for c in ast.walk(st)) or (
+            isinstance(st, ast.Assign) and isinstance(st.targets[0], ast.Subscript)
+            and norm(st.targets[0].value) == 'self.buffers')
+        if fills:
+            for x in states:
+                verdicts.append((pc_entails(x[0], goal) is True, pc_show(x[0]), st))
+    Flow(Disjunctive(PathCond(), cap=256), on_stmt=on_fill).run(fn, [PathCond.initial()])
+    if not verdicts:
+        raise AnalysisError('cache(): no bucket fill found')
+    badv = [v for v in verdicts if not v[0]]
+    if not badv:
+        rep.ok(rid, construct, 'cached bucket is reused', f'every path to the fill implies `{bname} not in self.buffers`')
     else:
         rep.fail(rid, construct, 'cached bucket is reused',
-                 'cache() does not return early for a bucket that is present', first)
+                 f'the bucket is read and stored on a path that does not imply `{bname} not in self.buffers` '
+                 f'(path condition: {badv[0][1][:120]}): a cached bucket is fetched again', badv[0][2])
     # bucket keys handed to cache() are multiples of buffersize
-    for m in [x for x in cls.body if isinstance(x, ast.FunctionDef)]:
+    for m in methods(rep, cls):
         calls = [c for c in ast.walk(m) if isinstance(c, ast.Call) and call_name(c) == 'self.cache']
         if not calls:
             continue
